@@ -25,6 +25,7 @@ type Dims struct {
 	NoSync         bool    `json:"noSync"`
 	Sparse         bool    `json:"sparse"` // observe only where the behaviour says so
 	AllocBatches   bool    `json:"allocBatches"`
+	AllocMix       bool    `json:"allocMix"` // with allocBatches: every other operation through the plain Set/Del/Merge
 	NKeys          int     `json:"nkeys"`
 	Paths          []string `json:"paths"`
 	LeakCheck      bool    `json:"leakCheck"` // C15: after everything is closed nothing of the directory may stay open or mapped
@@ -32,6 +33,9 @@ type Dims struct {
 	CloseOrder     string  `json:"closeOrder"` // "snapsFirst" (default) | "storeFirst": order in which the driver closes what the behaviour left open
 	Preload        []int   `json:"preload"` // keys the lower level holds (token 9) before the behaviour starts
 	ConcrProfile   string  `json:"concr"`
+	OpOrder        string  `json:"opOrder"`       // "" (ascending keys) | "desc": order in which the operations are put into a batch
+	CompactionPct  float64 `json:"compactionPct"` // StoreOptions.CompactionPercentage (1.0: never "too fragmented" for a partial compaction)
+	Rolling        bool    `json:"rolling"`       // hold a store snapshot and a clean collection snapshot across every persistence round
 	Seed           int64   `json:"seed"`
 }
 
@@ -57,6 +61,7 @@ type Expect struct {
 	H     []int     `json:"h"`
 	Snaps []SnapExp `json:"snaps"`
 	Dg    []Val     `json:"dg"`
+	Mv    []Val     `json:"mv"` // MossColl!MemView: content read with SkipLowerLevel
 	So    bool      `json:"so"` // no segment in top/mid/base at any level: only structural changes can be unpersisted
 }
 type Step struct {
@@ -86,6 +91,8 @@ type Result struct {
 	Shapes []string     `json:"shapes,omitempty"` // section-height shapes seen
 	Cross  bool         `json:"cross"`            // some read crossed a section boundary
 	Gz0    bool         `json:"gz0"`              // all dirty gauges were zero at some observation after the first batch
+	Partial int         `json:"partial"`          // partial compactions (splice point > 0) the implementation took
+	Full    int         `json:"full"`             // full compactions
 }
 
 // Notifier is the (exported-method) merger notification API of a collection.
@@ -107,14 +114,21 @@ type Session struct {
 	merge *moss.MergeOperatorStringAppend
 	snaps map[int]moss.Snapshot
 	onErr int
+	policyDiverged bool // the implementation chose another merge level than the behaviour
+	lastErr string
 	closeDone chan error
 	refs  []Content // expectations after each executed batch (TLC's, for prefix checks)
 	refsBeforeReopen []Content
 	heldStore     moss.Snapshot
 	heldStoreExp  Content
 	heldStoreOpen bool
+	prevH                     []int         // section heights TLC expects after the previous step (-1: nil)
+	rollStore, rollColl       moss.Snapshot // rolling snapshots (Dims.Rolling)
+	rollStoreExp, rollCollExp Content
 	openErr       string
 	leaks         []Mismatch
+	conformance   []Mismatch
+	partial, full int // compactions seen by earlier incarnations (before a reopen)
 	life  string
 	failWrites int32
 	flog  *FileLog
@@ -135,14 +149,15 @@ func (s *Session) collOptions() moss.CollectionOptions {
 		MaxPreMergerBatches:    s.D.MaxPre,
 		MergerIdleRunTimeoutMS: -1,
 		CachePersisted:         s.D.CachePersisted,
-		OnError:                func(error) { s.onErr++ },
+		OnError:                func(e error) { s.onErr++; s.lastErr = fmt.Sprint(e) },
 	}
 	return co
 }
 
 func (s *Session) storeOptions() (moss.StoreOptions, moss.StorePersistOptions) {
 	so := moss.StoreOptions{CollectionOptions: s.collOptions(), KeepFiles: s.D.KeepFiles,
-		CompactionLevelMaxSegments: s.D.LevelMaxSegs, CompactionLevelMultiplier: s.D.LevelMult}
+		CompactionLevelMaxSegments: s.D.LevelMaxSegs, CompactionLevelMultiplier: s.D.LevelMult,
+		CompactionPercentage: s.D.CompactionPct}
 	so.OpenFile = s.openFile
 	po := moss.StorePersistOptions{NoSync: s.D.NoSync}
 	switch s.D.Compaction {
@@ -206,6 +221,7 @@ func (s *Session) Open() error {
 		if s.heldStore != nil {
 			s.heldStore.Close()
 		}
+		s.closeRolling()
 		s.heldStore, _ = st.Snapshot()
 		s.heldStoreOpen = true
 	default:
@@ -345,6 +361,7 @@ func (s *Session) Teardown() {
 		s.heldStore.Close()
 		s.heldStore = nil
 	}
+	s.closeRolling()
 	if s.life != "closed" && s.coll != nil {
 		done := make(chan struct{})
 		if s.life == "closing" {
@@ -368,17 +385,93 @@ func (s *Session) Teardown() {
 	}
 }
 
+// sizes of a batch node (operations and key+value bytes), for Alloc-built batches
+func (s *Session) nodeSize(node BNode) (ops, bytes int) {
+	for i, op := range node.Ops {
+		if op.O == "none" || op.O == "xk" || op.O == "xv" {
+			continue
+		}
+		ops++
+		bytes += len(s.C.Keys[i]) + len(s.C.Operand(op.V))
+	}
+	return
+}
+
 func (s *Session) buildBatch(b map[string]BNode) (moss.Batch, error) {
-	root, err := s.coll.NewBatch(0, 0)
+	ops, bytes := 0, 0
+	if s.D.AllocBatches {
+		ops, bytes = s.nodeSize(b[""])
+	}
+	root, err := s.coll.NewBatch(ops, bytes)
 	if err != nil {
 		return nil, err
 	}
 	var fill func(p string, batch moss.Batch) error
 	fill = func(p string, batch moss.Batch) error {
 		node := b[p]
-		for i, op := range node.Ops {
+		// operations the batch must reject (oversize key / value); with Alloc-built batches they
+		// are issued between the Alloc calls and the AllocSet/Del/Merge of the next accepted one
+		var rejected []Op
+		reject := func() error {
+			for _, r := range rejected {
+				var e, want error
+				if r.O == "xk" {
+					e, want = batch.Set(OversizeKey(), s.C.Operand(r.V)), moss.ErrKeyTooLarge
+				} else {
+					e, want = batch.Set(s.C.Keys[0], OversizeVal()), moss.ErrValueTooLarge
+				}
+				if e != want {
+					s.conformance = append(s.conformance, Mismatch{What: "batch.reject", Got: fmt.Sprint(e), Want: want.Error()})
+				}
+			}
+			rejected = nil
+			return nil
+		}
+		for j := range node.Ops {
+			i := j
+			if s.D.OpOrder == "desc" {
+				i = len(node.Ops) - 1 - j
+			}
+			op := node.Ops[i]
 			key := s.C.Keys[i]
 			var err error
+			if op.O == "xk" || op.O == "xv" {
+				rejected = append(rejected, op)
+				continue
+			}
+			alloc := s.D.AllocBatches && (!s.D.AllocMix || i%2 == 0)
+			if !alloc && op.O != "none" {
+				reject()
+			}
+			if alloc && op.O != "none" {
+				// keys and values are written into memory owned by the batch, each from
+				// its own Alloc call (an empty key or value is an Alloc(0))
+				var kb, vb []byte
+				if kb, err = batch.Alloc(len(key)); err != nil {
+					return err
+				}
+				copy(kb, key)
+				val := s.C.Operand(op.V)
+				if op.O != "del" {
+					if vb, err = batch.Alloc(len(val)); err != nil {
+						return err
+					}
+					copy(vb, val)
+				}
+				reject()
+				switch op.O {
+				case "set":
+					err = batch.AllocSet(kb, vb)
+				case "del":
+					err = batch.AllocDel(kb)
+				case "mrg":
+					err = batch.AllocMerge(kb, vb)
+				}
+				if err != nil {
+					return err
+				}
+				continue
+			}
 			switch op.O {
 			case "set":
 				err = batch.Set(key, s.C.Operand(op.V))
@@ -391,6 +484,7 @@ func (s *Session) buildBatch(b map[string]BNode) (moss.Batch, error) {
 				return err
 			}
 		}
+		reject()
 		for _, n := range childPaths(s.D.Paths, p) {
 			q := joinPath(p, n)
 			switch b[q].Kind {
@@ -399,7 +493,11 @@ func (s *Session) buildBatch(b map[string]BNode) (moss.Batch, error) {
 					return err
 				}
 			case "ops":
-				cb, err := batch.NewChildCollectionBatch(s.C.Names[n], moss.BatchOptions{})
+				bo := moss.BatchOptions{}
+				if s.D.AllocBatches {
+					bo.TotalOps, bo.TotalKeyValBytes = s.nodeSize(b[q])
+				}
+				cb, err := batch.NewChildCollectionBatch(s.C.Names[n], bo)
 				if err != nil {
 					return err
 				}
@@ -477,7 +575,22 @@ func (s *Session) Do(st Step) error {
 		if err := sc.AwaitParked("merger.loop", stepTimeout); err != nil {
 			return err
 		}
-		if ev.Info.Point == "merger.handoff" && s.life == "open" {
+		got := ev.Info.Point == "merger.handoff"
+		var a struct {
+			Did *bool `json:"did"`
+		}
+		json.Unmarshal(st.Arg, &a)
+		if a.Did != nil {
+			// MossColl!MergerHandoff: the stack is handed to the persister only into an empty slot
+			want := *a.Did
+			if got != want {
+				s.conformance = append(s.conformance, Mismatch{What: "conformance.handoff",
+					Got:  fmt.Sprintf("%s (top/mid/base/clean before the step: %v)", ev.Info.Point, s.prevH),
+					Want: map[bool]string{true: "merger.handoff", false: "merger.handoffskip: stackDirtyBase is in use by the persister"}[want]})
+				return nil // the persister is wherever the earlier steps left it
+			}
+		}
+		if got && s.life == "open" {
 			return sc.AwaitParked("persister.beforeUpdate", stepTimeout)
 		}
 	case "PersisterUpdate":
@@ -488,7 +601,22 @@ func (s *Session) Do(st Step) error {
 		}
 		if a.Ok {
 			sc.Release("persister.beforeUpdate")
-			return sc.AwaitParked("persister.beforeSwap", stepTimeout)
+			deadline := time.Now().Add(stepTimeout)
+			for {
+				if err := sc.AwaitParked("persister.beforeSwap", 2*time.Millisecond); err == nil {
+					return nil
+				}
+				if _, err := sc.AwaitEvent(mark, time.Millisecond, "persister.error"); err == nil {
+					// LowerLevelUpdate failed although no failure was injected: the implementation does
+					// not follow MossColl!PersisterUpdate (reported; the persister retries the same stack)
+					s.conformance = append(s.conformance, Mismatch{What: "conformance.persist",
+						Got: "LowerLevelUpdate failed: " + s.lastErr, Want: "the persistence round succeeds"})
+					return sc.AwaitParked("persister.beforeUpdate", stepTimeout)
+				}
+				if time.Now().After(deadline) {
+					return sc.AwaitParked("persister.beforeSwap", time.Millisecond)
+				}
+			}
 		}
 		s.injectUpdateFailure()
 		sc.Release("persister.beforeUpdate")
@@ -498,8 +626,24 @@ func (s *Session) Do(st Step) error {
 		return sc.AwaitParked("persister.beforeUpdate", stepTimeout)
 	case "PersisterSwap":
 		sc.Release("persister.beforeSwap")
-		_, err := sc.AwaitEvent(mark, stepTimeout, "persister.swap")
-		return err
+		deadline := time.Now().Add(stepTimeout)
+		for {
+			if _, err := sc.AwaitEvent(mark, 2*time.Millisecond, "persister.swap"); err == nil {
+				return nil
+			}
+			if cs, err := s.coll.Stats(); err == nil && cs.TotPersisterEnd > 0 {
+				// the persister goroutine left without installing the lower level snapshot it
+				// was given: a conformance difference that the checks report (C04/C15), not
+				// an infrastructure problem
+				s.conformance = append(s.conformance, Mismatch{What: "persister.exit-without-swap",
+					Got: "the persister exited after a successful LowerLevelUpdate without the swap", Want: "persister.swap"})
+				return nil
+			}
+			if time.Now().After(deadline) {
+				_, err := sc.AwaitEvent(mark, time.Millisecond, "persister.swap")
+				return err
+			}
+		}
 	case "TakeSnapshot":
 		var a struct{ Id int }
 		json.Unmarshal(st.Arg, &a)
@@ -555,6 +699,9 @@ func (s *Session) Do(st Step) error {
 		}
 		return fmt.Errorf("merger keeps cycling instead of exiting")
 	case "PersisterExit":
+		if cs, err := s.coll.Stats(); err == nil && cs.TotPersisterEnd > 0 {
+			return nil // already gone (see PersisterSwap)
+		}
 		if s.D.Mode != "mem" {
 			if err := sc.AwaitParked("persister.beforeUpdate", stepTimeout); err != nil {
 				return err
@@ -583,9 +730,15 @@ func (s *Session) Do(st Step) error {
 				s.heldStore.Close()
 				s.heldStore = nil
 			}
+			s.closeRolling()
 			s.leaks = s.leakCheck()
 		}
 	case "Reopen":
+		if s.sched != nil {
+			p, f := countCompactions(s.sched)
+			s.partial += p
+			s.full += f
+		}
 		s.coll, s.store = nil, nil
 		if err := s.Open(); err != nil {
 			if strings.HasPrefix(err.Error(), "OpenStoreCollection:") {
@@ -623,6 +776,10 @@ func (s *Session) pollStat(pred func(*moss.CollectionStats) bool) error {
 func (s *Session) Observe(idx int, st Step, full bool) StepResult {
 	r := StepResult{Step: idx, Act: st.Act}
 	exp := st.Exp
+	if len(s.conformance) > 0 {
+		r.Mismatches = append(r.Mismatches, s.conformance...)
+		s.conformance = nil
+	}
 	if len(s.leaks) > 0 {
 		r.Mismatches = append(r.Mismatches, s.leaks...)
 		s.leaks = nil
@@ -645,6 +802,7 @@ func (s *Session) Observe(idx int, st Step, full bool) StepResult {
 		}
 		r.Mismatches = append(r.Mismatches, CheckSnapshot(s.heldStore, s.C, want, s.D.Paths, "heldstore")...)
 	}
+	s.rolling(st, exp, &r)
 	// open snapshots (C02): always re-read
 	for id, ss := range s.snaps {
 		if id-1 < len(exp.Snaps) && exp.Snaps[id-1].Open {
@@ -659,13 +817,21 @@ func (s *Session) Observe(idx int, st Step, full bool) StepResult {
 		cs, err := s.coll.Stats()
 		if err == nil {
 			r.Heights = []int{int(cs.CurDirtyTopSegments), int(cs.CurDirtyMidSegments), int(cs.CurDirtyBaseSegments), int(cs.CurCleanSegments)}
+			// The merge level is policy (a parameter of MossColl, not compared with the code's
+			// choice).  Once the implementation's section heights differ from the ones of the
+			// model's choice, what the in-memory sections alone hold (MemView) is no longer
+			// predicted by the behaviour; everything else (full reads) does not depend on it.
+			if st.Act == "Reopen" {
+				s.policyDiverged = false
+			}
 			for i, h := range r.Heights {
 				w := 0
 				if i < len(exp.H) && exp.H[i] > 0 {
 					w = exp.H[i]
 				}
-				_ = w
-				_ = h
+				if w != h {
+					s.policyDiverged = true
+				}
 			}
 		}
 		// C10 first (Collection.Get does not touch the cached snapshot)
@@ -684,6 +850,7 @@ func (s *Session) Observe(idx int, st Step, full bool) StepResult {
 				}
 			}
 		}
+		r.Mismatches = append(r.Mismatches, s.checkSkipLL(exp)...)
 		ss, err := s.coll.Snapshot()
 		if err != nil {
 			r.Mismatches = append(r.Mismatches, Mismatch{What: "snapshot.err", Got: err.Error()})
@@ -757,6 +924,109 @@ func (s *Session) Observe(idx int, st Step, full bool) StepResult {
 	return r
 }
 
+func (s *Session) closeRolling() {
+	if s.rollStore != nil {
+		s.rollStore.Close()
+		s.rollStore = nil
+	}
+	if s.rollColl != nil {
+		s.rollColl.Close()
+		s.rollColl = nil
+	}
+}
+
+// rolling (C02/C15): a store snapshot taken after every persistence round and a collection
+// snapshot taken when nothing is dirty (its iterators are the lower level's own) are held
+// across the next persistence round -- and across Close -- and fully re-read, seeks
+// included, after every step; the expected content is the one TLC gave when they were taken.
+func (s *Session) rolling(st Step, exp Expect, r *StepResult) {
+	if !s.D.Rolling {
+		return
+	}
+	if s.rollStore != nil {
+		r.Mismatches = append(r.Mismatches, CheckSnapshot(s.rollStore, s.C, s.rollStoreExp, s.D.Paths, "heldstore.roll")...)
+	}
+	if s.rollColl != nil {
+		r.Mismatches = append(r.Mismatches, CheckSnapshot(s.rollColl, s.C, s.rollCollExp, s.D.Paths, "heldsnap.roll")...)
+	}
+	if s.life != "open" || s.coll == nil {
+		return
+	}
+	swap := st.Act == "PersisterSwap"
+	if s.store != nil && (s.rollStore == nil || swap) {
+		if s.rollStore != nil {
+			s.rollStore.Close()
+		}
+		s.rollStore, _ = s.store.Snapshot()
+		s.rollStoreExp = exp.St
+	}
+	clean := len(exp.H) == 4 && exp.H[0] <= 0 && exp.H[1] <= 0 && exp.H[2] <= 0
+	if s.D.Mode != "mem" && clean && (s.rollColl == nil || swap) {
+		if s.rollColl != nil {
+			s.rollColl.Close()
+		}
+		s.rollColl, _ = s.coll.Snapshot()
+		s.rollCollExp = exp.Ref
+	}
+}
+
+// checkSkipLL: with SkipLowerLevel (and with and without NoCopyValue) Collection.Get,
+// Get on a fresh snapshot and the entry produced by iterating that snapshot must agree
+// with each other (C10: every read option combination).
+func (s *Session) checkSkipLL(exp Expect) (out []Mismatch) {
+	ss, err := s.coll.Snapshot()
+	if err != nil {
+		return nil
+	}
+	defer ss.Close()
+	iterVals := map[string][]byte{}
+	it, err := ss.StartIterator(nil, nil, moss.IteratorOptions{SkipLowerLevel: true})
+	if err == nil && it != nil {
+		for n := 0; n < 10000; n++ {
+			k, v, e := it.Current()
+			if e != nil {
+				break
+			}
+			if v == nil {
+				v = []byte{}
+			}
+			iterVals[string(k)] = append([]byte{}, v...)
+			if it.Next() != nil {
+				break
+			}
+		}
+		it.Close()
+	}
+	for i, kb := range s.C.Keys {
+		for _, nc := range []bool{false, true} {
+			ro := moss.ReadOptions{SkipLowerLevel: true, NoCopyValue: nc}
+			a, e1 := s.coll.Get(kb, ro)
+			b, e2 := ss.Get(kb, ro)
+			if e1 != nil || e2 != nil {
+				out = append(out, Mismatch{What: "coll.get.skipll.err", Key: i + 1, Got: fmt.Sprint(e1, e2)})
+				continue
+			}
+			// MossColl!MemView: what the in-memory sections alone hold for the key
+			if i < len(exp.Mv) && !s.policyDiverged {
+				if want := s.C.Bytes(exp.Mv[i]); !sameBytes(a, want) {
+					out = append(out, Mismatch{What: "coll.get.skipll.model", Key: i + 1,
+						Got: fmt.Sprintf("Collection.Get=%s (SkipLowerLevel, NoCopyValue=%v)", show(a), nc), Want: show(want)})
+				}
+			}
+			c, inIter := iterVals[string(kb)]
+			if !inIter {
+				c = nil
+			}
+			if !sameBytes(a, b) || (b == nil) != (c == nil) || (b != nil && string(b) != string(c)) {
+				out = append(out, Mismatch{What: "coll.get.skipll", Key: i + 1,
+					Got:  fmt.Sprintf("Collection.Get=%s Snapshot.Get=%s iteration=%s (SkipLowerLevel, NoCopyValue=%v)", show(a), show(b), show(c), nc),
+					Want: "the three read paths agree"})
+			}
+		}
+	}
+	return
+}
+
 func emptyContent(d Dims) Content {
 	c := Content{}
 	for _, p := range d.Paths {
@@ -807,6 +1077,7 @@ func (s *Session) finalLeakCheck() []Mismatch {
 			s.heldStore.Close()
 			s.heldStore = nil
 		}
+		s.closeRolling()
 	}
 	closeColl := func() {
 		if s.coll == nil || s.life == "closed" {
@@ -843,6 +1114,20 @@ func (s *Session) finalLeakCheck() []Mismatch {
 	return s.leakCheck()
 }
 
+// countCompactions counts the store.compact.swap events of a scheduler by kind.
+func countCompactions(sc *Sched) (partial, full int) {
+	for _, e := range sc.Events() {
+		if e.Info.Point == "store.compact.swap" && len(e.Info.Extra) > 0 {
+			if n, ok := e.Info.Extra[0].(int); ok && n > 0 {
+				partial++
+			} else {
+				full++
+			}
+		}
+	}
+	return
+}
+
 // Replay runs a whole behaviour.
 func Replay(id int, d Dims, steps []Step) (res Result) {
 	res.ID = id
@@ -856,11 +1141,22 @@ func Replay(id int, d Dims, steps []Step) (res Result) {
 	bad := false
 	for i, st := range steps {
 		if err := s.Do(st); err != nil {
-			res.Status, res.Infra = "infra", fmt.Sprintf("step %d %s: %v", i, st.Act, err)
+			res.Infra = fmt.Sprintf("step %d %s: %v", i, st.Act, err)
+			if bad || len(s.conformance) > 0 {
+				// the implementation already left the behaviour at an earlier step (reported there);
+				// that the driver cannot follow it any further is a consequence, not an infrastructure problem
+				if len(s.conformance) > 0 {
+					res.Steps = append(res.Steps, StepResult{Step: i, Act: st.Act, Mismatches: s.conformance})
+				}
+				res.Status = "mismatch"
+				return
+			}
+			res.Status = "infra"
 			return
 		}
 		full := !d.Sparse || i == len(steps)-1 || st.Act == "TakeSnapshot"
 		sr := s.Observe(i, st, full)
+		s.prevH = st.Exp.H
 		if sr.Heights != nil {
 			shapes[fmt.Sprint(sr.Heights)] = true
 			n := 0
@@ -894,6 +1190,12 @@ func Replay(id int, d Dims, steps []Step) (res Result) {
 	}
 	for k := range shapes {
 		res.Shapes = append(res.Shapes, k)
+	}
+	res.Partial, res.Full = s.partial, s.full
+	if s.sched != nil {
+		p, f := countCompactions(s.sched)
+		res.Partial += p
+		res.Full += f
 	}
 	if bad {
 		res.Status = "mismatch"
